@@ -20,4 +20,12 @@ def valP (c ns : Int) : Int := c * NPCs + ns
 def canonP (c ns : Int) : Bool :=
   decide (-32768 ≤ c ∧ c ≤ 32767 ∧ 0 ≤ ns ∧ (ns < NPCs ∨ (c = 32767 ∧ ns = NPCs)))
 
+/-- greatest multiple of |s| not above x (0 for a zero step), saturated -/
+def sfloor (x s : Int) : Int := if s = 0 then 0 else clampD (x - x % s)
+/-- floor plus |s|, computed from the returned (saturated) floor, saturated -/
+def sceil (x s : Int) : Int := clampD (sfloor x s + (if s < 0 then -s else s))
+/-- whichever of floor and ceil is nearer, ties going up -/
+def sround (x s : Int) : Int :=
+  if x - sfloor x s < (if sceil x s - x < 0 then -(sceil x s - x) else sceil x s - x) then sfloor x s else sceil x s
+
 end Hifi.Spec
